@@ -12,6 +12,7 @@ TRUSTED = [
     'hand-written model coq/Model/Lifecycle.v (start handshake, stop sentinel re-broadcast, joins) of a simple servlet',
     'trace validation: the real ThreadServlet.start/stop with real Worker.run execute under harness/detsched.py and are replayed event by event; whole servlet trees under a real Server are explored with the full-stack scheduled scenario (oracle only)',
     __import__('harness.scen_procstack', fromlist=['PROC_TRUSTED']).PROC_TRUSTED,
+    'hand-written model coq/Model/SeqStop.v (stopping a two-stage sequence with requests in flight and a pipe that cannot hold a result); trace validation: the real SequentialServlet / ThreadServlet.stop / Worker loop under the scheduler with the connecting queue replaced by a virtual pipe that hands a data item only to a reader already waiting in get()',
 ]
 ASSUME = [
     'ProcessServlet: same start/stop code over pipe-backed queues and real processes; not scheduled (the bounded-pipe hang with abandoned inputs - DESIGN.md section 7-M - is therefore outside this check)',
@@ -80,6 +81,7 @@ def parts():
                   lambda r: r['cfg']['tree']['t'] != 'leaf' or len(r['cycles']) > 1,
                   key=lambda r: json.dumps(r['cfg'], sort_keys=True) + str(r['decisions'][:80]),
                   describe=lambda r: {k: r.get(k) for k in ('cfg', 'strategy', 'verdict', 'cycles', 'blocked')}),
+        __import__('harness.scen_seqstop', fromlist=['part']).part(200, 4000),
         __import__('harness.scen_procstack', fromlist=['part']).part(7, 60),
     ]
 
